@@ -929,7 +929,38 @@ def check_optional_unit_truthiness(prog: Program, rep, rule: str) -> None:
 def _constant_driven(prog: Program, mod, f, key: ast.AST) -> bool:
     """The attribute name is not a string from outside: it is a loop variable over a literal table of the package, or a
     parameter of a function every call of which (in the package) passes a literal."""
-    if not isinstance(key, ast.Name) or f is None:
+    if f is None:
+        return False
+    if isinstance(key, ast.Attribute) and isinstance(key.value, ast.Name) and f.cls is not None and f.positional \
+            and key.value.id == f.positional[0]:
+        # a field of a record of the package: every construction in the package gives it a literal (or leaves the literal
+        # default), and nothing stores it afterwards
+        cname, attr = f.cls.name, key.attr
+        fields = [s_.target.id for s_ in f.cls.node.body if isinstance(s_, ast.AnnAssign) and isinstance(s_.target, ast.Name)]
+        if attr not in fields:
+            return False
+        dflt = next((s_.value for s_ in f.cls.node.body if isinstance(s_, ast.AnnAssign) and isinstance(s_.target, ast.Name)
+                     and s_.target.id == attr), None)
+        sites = 0
+        for m_ in prog.modules.values():
+            for c in ast.walk(m_.tree):
+                if isinstance(c, ast.Attribute) and c.attr == attr and isinstance(c.ctx, (ast.Store, ast.Del)):
+                    return False
+                if isinstance(c, ast.Call) and (dotted(c.func) or '').split('.')[-1] in (cname, '_make', '_replace') :
+                    if (dotted(c.func) or '').split('.')[-1] != cname:
+                        if (dotted(c.func) or '').split('.')[0] == cname or m_ is f.module:
+                            return False
+                        continue
+                    if any(isinstance(a, ast.Starred) for a in c.args) or any(k.arg is None for k in c.keywords):
+                        return False
+                    bound = dict(zip(fields, c.args))
+                    bound.update({k.arg: k.value for k in c.keywords})
+                    a = bound.get(attr, dflt)
+                    if not (isinstance(a, ast.Constant) and (a.value is None or isinstance(a.value, str))):
+                        return False
+                    sites += 1
+        return sites > 0
+    if not isinstance(key, ast.Name):
         return False
 
     def literal_rows(seq: ast.AST) -> bool:
@@ -999,8 +1030,21 @@ def check_dynamic_names(prog: Program, rep, rule: str) -> None:
                             if '__dataclass_fields__' in rhs or '__annotations__' in rhs or 'fields(' in rhs \
                                     or isinstance(c.comparators[0], (ast.Tuple, ast.Set, ast.List)):
                                 ok = True
+                # a string from outside: the key is (computed from) a parameter of the function, or the key of its **kwargs
+                outside = False
+                if f is not None:
+                    roots = {x.id for x in ast.walk(n.args[1]) if isinstance(x, ast.Name)}
+                    pnames = set(f.params) - set(f.positional[:1] if f.cls is not None else [])
+                    kw = f.node.args.kwarg.arg if f.node.args.kwarg else None
+                    for a_ in ast.walk(f.node):
+                        if isinstance(a_, (ast.For, ast.comprehension)) and kw and kw in {x.id for x in ast.walk(a_.iter) if isinstance(x, ast.Name)}:
+                            pnames |= {x.id for x in ast.walk(a_.target) if isinstance(x, ast.Name)}
+                    outside = bool(roots & pnames)
                 if ok:
                     rep.ok(rule, mod.where(n), f'{fq}: getattr(PreferredUnits, {key}) under a slot-table membership test')
+                elif not outside:
+                    rep.undecided(rule, mod.where(n), f'{fq}: getattr(PreferredUnits, {key})',
+                                  'where the name comes from is not visible here (not a parameter, not a literal table)')
                 else:
                     gtxt = norm(guard.test)[:60] if guard is not None else 'no guard'
                     rep.fail(rule, mod.path, n.lineno, fq, f'getattr:{key}',
